@@ -184,6 +184,17 @@ def clone_into_module(modname):
         return _CLONES[modname]
     import types as _t
     g = dict(globals())
+    if modname.startswith("wraps:"):
+        # the functions live in this module, but their metadata (__module__, __name__, __qualname__, __wrapped__) was
+        # copied from one of stackscope's public functions, as functools.wraps(stackscope.extract_since) would do
+        import functools
+        import stackscope
+        for name in ("true_stack", "level", "observe"):
+            f = globals()[name]
+            g[name] = functools.update_wrapper(_t.FunctionType(f.__code__, g, name, f.__defaults__, f.__closure__),
+                                               getattr(stackscope, modname[6:]))
+        _CLONES[modname] = g
+        return g
     g["__name__"] = modname
     for name in ("true_stack", "level", "observe"):
         f = globals()[name]
@@ -284,7 +295,7 @@ def run(ctx):
             continue
         # the calling code normally lives in this module; for shallow stacks it is also placed in modules whose names
         # merely begin like the library's (only frames of the library itself may be skipped when looking for the caller)
-        mods = [None] + (["stackscope_helpers", "stackscopex.sub", "my.stackscope.glue"] if len(kinds) <= 2 else [])
+        mods = [None] + (["stackscope_helpers", "stackscopex.sub", "my.stackscope.glue", "wraps:extract_since", "wraps:extract"] if len(kinds) <= 2 else [])
         for modname in mods:
             res = run_config(splits, kinds, modname)
             ctx.count("evaluations", res["cnt"])
